@@ -128,6 +128,7 @@ pub fn run(ctx: &mut RunCtx) {
     let cases = ctx.tier.pick(8000, 500_000);
     let excl_merge_on_count = ctx.has_open("count-zero-but-changed:merge-on-set-only");
     let excl_cross_row = ctx.excluding("cross-row-reads-after-update-clause");
+    let excl_lingering = ctx.excluding("recreate-relationship-key-whose-properties-were-set-and-deleted-in-one-statement");
     let keys: Vec<String> = r#gen::KEYS.iter().map(|s| s.to_string()).collect();
     let types: Vec<String> = r#gen::TYPES.iter().map(|s| s.to_string()).collect();
     let test = |case: &Case, obs: &mut Obs| {
@@ -136,6 +137,8 @@ pub fn run(ctx: &mut RunCtx) {
         let uni = Universe { keys: &keys, types: &types };
         // entities written by earlier statements of the sequence (for the non-trivial rule)
         let mut touched_nodes: BTreeSet<Iid> = BTreeSet::new();
+        // relationship keys that got properties and were deleted inside one earlier statement
+        let mut lingering: BTreeSet<(Iid, String, Iid)> = BTreeSet::new();
         let mut log: Vec<String> = Vec::new();
         let mut dependent = false;
         for (si, st) in case.stmts.iter().enumerate() {
@@ -193,10 +196,34 @@ pub fn run(ctx: &mut RunCtx) {
                 }
                 obs.class("cross-row-read-after-update-clause");
             }
+            // open finding: properties SET on a relationship that the same statement then deletes
+            // stay in the property store and show on a relationship created later with that key
+            let recreates_lingering = stats.created_keys.iter().any(|k| lingering.contains(k));
+            if recreates_lingering {
+                if excl_lingering && !case.force {
+                    obs.excluded("recreate-relationship-key-whose-properties-were-set-and-deleted-in-one-statement");
+                    model = before;
+                    log.pop();
+                    continue;
+                }
+                obs.class("recreates-relationship-key-with-lingering-properties");
+            }
+            for ((e, _), v) in &stats.wlog {
+                if v.is_none() || !e.starts_with('r') {
+                    continue;
+                }
+                for k in stats.created_keys.iter().chain(before.edges.keys()) {
+                    if *e == format!("r{}-{}-{}", k.0, k.1, k.2) && !model.edges.contains_key(k) {
+                        lingering.insert(k.clone());
+                    }
+                }
+            }
             // open finding: type() of a relationship whose type name the statement itself introduced
             let new_type = q.contains("type(")
                 && model.edges.keys().any(|(_, t, _)| !before.edges.keys().any(|(_, t0, _)| t0 == t));
-            let stale = if stats.cross_row_reads {
+            let stale = if recreates_lingering {
+                "lingering-relationship-properties:"
+            } else if stats.cross_row_reads {
                 "stale-row-value:"
             } else if new_type {
                 "type-of-new-relationship-type:"
